@@ -120,6 +120,50 @@ for _v in (1, 2, 3):
     make_shape_agg(_v)
 
 
+def make_shape_limit(v):
+    @cond(f'C07.shape.limit.{v}targets', quick=240, thorough=600,
+          bounds=f'2 rows (a symbolic int, b symbolic int or NULL, k in {{NULL,0,1}}); aggregate query with {v} visible target(s) '
+                 '(sum(a) AS s | k, count(*) AS n), GROUP BY / HAVING forms adding 0..2 hidden targets, no ORDER BY or ORDER BY a '
+                 'hidden aggregate, LIMIT 0..2 or none, DISTINCT or not: hidden targets never reach description or rows '
+                 'whichever combination of the later clauses is present',
+          symbolic='a, b cells', enumerated='k cells; GROUP BY / HAVING form, ORDER BY presence, LIMIT, DISTINCT (selectors)',
+          params={'a0': int, 'a1': int, 'b0': Optional[int], 'b1': Optional[int], 'k0': int, 'k1': int,
+                  'group': int, 'order': bool, 'lim': int, 'distinct': bool}, group='C07.shape')
+    def shape_limit(group, order, lim, distinct, **kw):
+        rows = _rows(kw)
+        targets = [target(func('sum', col('a')), 's')] if v == 1 else [target(col('k')), target(func('count', ast.Asterisk()), 'n')]
+        # GROUP BY 1 would name the aggregate target when it is the only one (rightly rejected)
+        gb = pick(AGG_GROUP if v == 2 else AGG_GROUP[:1] + AGG_GROUP[2:], group)()
+        lim = enum_int(lim, 0, 3)
+        stmt = sel(targets, 't', group_by=gb, order_by=AGG_ORDER[1]() if order else None,
+                   limit=None if lim == 3 else lim, distinct=bool(distinct))
+        conn = connect(t=HTable('t', COLUMNS, rows))
+        desc, got = execute(conn, stmt)
+        want = refsem.Ref({'t': (COLUMNS, rows)}).select(stmt)
+        if len(desc) != v:
+            return 'description-length'
+        if [c.name for c in desc] != want.names:
+            return 'names'
+        for r in got:
+            if len(r) != v:
+                return 'row-length'
+        if order:
+            if not same_rows(got, want.rows):
+                return 'visible-cells'
+        else:
+            # without ORDER BY the order of the groups is not part of the claim: any order of the (at most two) groups, cut
+            n = len(want.rows)
+            full = refsem.Ref({'t': (COLUMNS, rows)}).select(
+                sel(targets, 't', group_by=gb, distinct=bool(distinct))).rows
+            if not (same_rows(got, full[:n]) or same_rows(got, full[::-1][:n])):
+                return 'visible-cells'
+        return 'ok'
+
+
+for _v in (1, 2):
+    make_shape_limit(_v)
+
+
 @cond('C07.shape.duplicates', quick=120,
       bounds='2 rows; SELECT a, a, b AS a, a + 1 AS b: duplicate names are allowed and preserved, positions keep their own values',
       symbolic='cells', params=_params())
